@@ -117,7 +117,8 @@ Ltac zeq := repeat match goal with
   | |- context [?a <=? ?b] => destruct (Z.leb_spec a b)
   end.
 Ltac uc := unfold v_callbackWaitExit, isop, isloc in *;
-  unfold c_streamOpened, c_streamClosed, c_streamHalfClosed, v_streamLocalHalfClosed, c_callbackWaitExit in *.
+  unfold v_streamLocalHalfClosed in *;
+  unfold c_streamOpened, c_streamClosed, c_streamHalfClosed, c_streamLocalHalfClosed, c_callbackWaitExit in *.
 
 Lemma cstep_mono s c : mono s (fst (cstep s c)).
 Proof.
@@ -300,10 +301,14 @@ Record InvA (s : est) : Prop := {
           + b2z (st s =? v_streamLocalHalfClosed)
           = (if st s =? c_streamOpened then 0 else 1);
   b_nn : 0 <= nlocal s /\ 0 <= nremote s;
+  (* once the state has left `opened`, closeNotifyCh is closed or the thread that will close it stands at that
+     call: a reader blocked in readMore is woken (the local half-close of Close() closes it in the same step) *)
+  b_wake : st s = c_streamOpened \/ b2z (cnotify s) = 1 \/
+           e_halfn (epc s) + cz c_pendcb (clos s) + cz (gl c_pendcb) (gors s) > 0;
   b_sent : nlocal s = ncl (out s) + cz c_send (clos s) + cz (gl c_send) (gors s) }.
 
 Lemma stepA s w : InvA s -> InvA (step s w).
-Proof. intros [H1 [H2 H2'] H4]. cases s w; brk; constructor; fin s. Qed.
+Proof. intros [H1 [H2 H2'] H3 H4]. cases s w; brk; constructor; fin s. Qed.
 
 (* session table, returned Close() calls, handled close notifications *)
 Record InvT (s : est) : Prop := {
@@ -642,7 +647,7 @@ Lemma full_inv cb0 s :
   InvAll s -> InvK cb0 s -> quiesc s -> close_returned s -> closed_ok s.
 Proof.
   intros HA HK [He [_ [Hg [Hcl Hsp]]]] Hret.
-  destruct HA as [_ [Hacc [Hn1 Hn2] Hsent] [Htbl _ _] _ _].
+  destruct HA as [_ [Hacc [Hn1 Hn2] Hwake Hsent] [Htbl _ _] _ _].
   destruct HK as [[_ _ _ _ _ Hkh _ _] [_ HR Hret2]]. unfold Wg in HR.
   assert (G0 : forall f, f GExit = false -> cz f (gors s) = 0).
   { intros f Hf. apply cz_all_false. intros j g Hj. rewrite (Hg j g Hj). exact Hf. }
@@ -688,7 +693,7 @@ Theorem callbacks_at_most_once sched :
   (st s = c_streamOpened -> nlocal s + nremote s = 0) /\ ncl (out s) <= nlocal s.
 Proof.
   intros s. pose proof (runAll sched s0 (initAll _ _ _ _ _)) as HA. fold s in HA.
-  destruct HA as [_ [Hacc [Hn1 Hn2] Hsent] _ _ _]. czpos s.
+  destruct HA as [_ [Hacc [Hn1 Hn2] Hwake Hsent] _ _ _]. czpos s.
   destruct (Z.eqb_spec (st s) c_streamOpened); destruct (Z.eqb_spec (st s) v_streamLocalHalfClosed);
     cbn [b2z] in Hacc; uc; repeat split; try lia.
 Qed.
@@ -703,6 +708,20 @@ Proof.
   assert (Hst : st s <> c_streamOpened).
   { intros E. specialize (Hret E). pose proof (cz_pos_in c_ret (clos s) i KRet Hi eq_refl). lia. }
   split; [auto|split; [apply flush_closed|apply read_not_blocked]]; auto.
+Qed.
+
+(* a reader blocked in readMore is woken: once the state has left `opened`, closeNotifyCh is closed as soon as
+   no thread stands between its state transition and its report *)
+Theorem wake sched :
+  let s := run sched s0 in
+  st s <> c_streamOpened ->
+  epc s <> EHalfN -> cz c_pendcb (clos s) = 0 -> cz (gl c_pendcb) (gors s) = 0 ->
+  cnotify s = true.
+Proof.
+  intros s Hst He Hc Hg. pose proof (runAll sched s0 (initAll _ _ _ _ _)) as HA. fold s in HA.
+  destruct HA as [_ [_ _ Hwake _] _ _ _].
+  assert (Hh : e_halfn (epc s) = 0) by (destruct (epc s); simpl; auto; congruence).
+  destruct (cnotify s); auto. cbn [b2z] in Hwake. lia.
 Qed.
 
 Theorem peer sched :
@@ -748,7 +767,7 @@ Qed.
 Lemma inboxP x s : InvP s -> InvP (set_inbox x s).
 Proof. intros [H1 H2 H3 H6 H7]. constructor; cb; assumption. Qed.
 Lemma inboxA x s : InvA s -> InvA (set_inbox x s).
-Proof. intros [H1 H2 H3]. constructor; cb; assumption. Qed.
+Proof. intros [H1 H2 H3 H4]. constructor; cb; assumption. Qed.
 Lemma inboxT x s : InvT s -> InvT (set_inbox x s).
 Proof. intros [H1 H2 H3]. constructor; cb; assumption. Qed.
 Lemma inboxL x s : InvL s -> InvL (set_inbox x s).
@@ -816,7 +835,7 @@ Proof.
   assert (Hst : st (wb w) <> c_streamOpened).
   { assert (HA : (nremote (wa w) = 1 /\ ncl (out (wa w)) = 0) \/ (nlocal (wa w) = 1 /\ ncl (out (wa w)) = 1)).
     { destruct (full_inv cba (wa w) Ha Ka Hq Hr) as [_ [_ [_ [_ [_ H]]]]]. exact H. }
-    destruct Hb as [_ [Bacc [Bn1 Bn2] Bsent] [_ _ Bpeer] _ _].
+    destruct Hb as [_ [Bacc [Bn1 Bn2] _ Bsent] [_ _ Bpeer] _ _].
     destruct Ra as [Ra].
     destruct HA as [[Hrem _]|[_ Hsent]].
     - destruct Hq as [Qe _]. rewrite Qe in Ra. cbn [e_halfn e_half] in Ra.
